@@ -1055,6 +1055,8 @@ void ObjsEngine::op_io(const Step& st)
   if (j == ia) j = (j + 1) % NSLOT;
   const Slot& A = S[ia];
   std::ostringstream out; out.precision(17);
+  // a field width, too: none, narrower than the text of an element (the stream never truncates), wider
+  { static const int FW[] = {0, 0, 3, 10, 26}; out.width(FW[(st.arg(2) / 7) % 5]); }
   switch (A.m.t) {
     case T_VEC: out << *A.vec; break; case T_MAT: out << *A.mat; break; case T_TMAT: out << *A.tmat; break;
     case T_SYM: out << *A.sym; break; case T_COV: out << *A.cov; break; case T_BAND: out << *A.band; break;
